@@ -626,7 +626,9 @@ func (g *g) word(label string, arg bool) string {
 var litPool = []string{"a", "b", "foo", "-l", "1", "é", "a.b", "/dev/null", "*", "a?", "[ab]", "~", "%", "a,b", "+x", "x:y", "日本", "--", "0", "42", "a=b", "@", "^",
 	// characters that are ordinary for the shell but special for someone: U+0080, a combining mark, a no-break
 	// space, carriage return, form feed, U+FFFD, a character beyond the BMP, a non-ASCII digit, a byte order mark
-	"a\u0080b", "e\u0301x", "\u00a0", "a\rb", "\f", "\uFFFD", "\U0001F600", "x\u0663", "\uFEFFx", "c\r"}
+	"a\u0080b", "e\u0301x", "\u00a0", "a\rb", "\f", "\uFFFD", "\U0001F600", "x\u0663", "\uFEFFx", "c\r",
+	// a literal that ends in "=" (in the value of an assignment: "x=k=$v")
+	"k=", "--key="}
 
 // wordParts generates the parts of a word, appending their text to pieces.
 // first: the word is a command name (no reserved word, no assignment shape,
